@@ -353,7 +353,6 @@ impl KSpec {
             KSpec::Mod(x, y, _) if hull(x).0 < 0 || hull(y).0 < 0 => "modulo-negative",
             KSpec::Mod(x, y, _) if { let (hx, hy) = (hull(x), hull(y)); hy.0 != hy.1 && hy.1 - hy.0 <= 10 && hx.1 - hx.0 > 10 } => "modulo-dividend-boundary-sampling",
             KSpec::Mod(_, y, _) if { let hy = hull(y); hy.1 - hy.0 > 10 } => "modulo-divisor-boundary-sampling",
-            KSpec::Neq(..) => "neq-noop",
             KSpec::LinEq(cs, ..) | KSpec::LinLe(cs, ..) | KSpec::LinNe(cs, ..) if cs.iter().all(|c| *c == 0) => "lin-all-zero-coefficients",
             KSpec::LinEqR(cs, ..) | KSpec::LinLeR(cs, ..) | KSpec::LinNeR(cs, ..) if cs.iter().all(|c| *c == 0) => "lin-all-zero-coefficients",
             _ => "-",
